@@ -12,6 +12,11 @@
  *       flags: 1 = touch lazily validated attributes before the threads start
  *              2 = threads also do page-map queries and attribute gets
  *              4 = clones share the translation (KDUMP_CLONE_XLAT)
+ *              8 = threads also WRITE attributes with side effects (cache.size,
+ *                  file.mmap_policy, arch.page_size re-set, file.zero_excluded = 0)
+ *                  through kdump_set_attr, kdump_set_sub_attr and kdump_attr_ref_set
+ *      16 = the main thread's open / clone / free calls are recorded, too
+ *           (printed as an extra thread after the readers)
  *   S <file> <nthreads> <iterations> <addr>
  *       stress: every thread repeats a cache hit + put of one page
  *
@@ -29,6 +34,9 @@
  *   I<c>:<e> D<c>:<e> P<c>:<e>   cache_insert / cache_discard / cache_put_entry
  *       c: 1 = page cache, 2 = file cache (mmap regions), 3 = file cache (read pages)
  *   a suffix '!' on a cache token = the calling thread did not hold cache_lock
+ *   A<id> ... Z<id>  a public API call made by the thread (ids = Conc/ApiLock.v api_table):
+ *       the lock events in between are checked against the lock class the entry point
+ *       must use (read / write / write after read)
  */
 #include "common.h"
 #include <fcntl.h>
@@ -50,16 +58,19 @@ struct tstate {
 	const void *held[16];
 	int nheld;
 	unsigned nolock, joined;
+	int wrheld;		/* holds shared->lock in write mode (exclusive section) */
 	char first_nolock[32];
 };
 
 static __thread struct tstate *me;
+static struct tstate main_ts;
 static volatile int recording;
 
 static const void *lock_ids[MAXLOCKS];	/* index = id; [1] cache_lock [2] shared lock */
 static int nlock_ids = 3;
 static pthread_mutex_t idlock = PTHREAD_MUTEX_INITIALIZER;
 static struct cache *caches[4];		/* [1] page [2] mmap [3] read */
+static struct kdump_shared *g_shared;	/* the page cache is re-allocated by cache.size writes */
 
 static int lock_id(const void *l)
 {
@@ -101,6 +112,10 @@ void verif_lock_event(int kind, const void *lock)
 				break;
 			}
 	}
+	if (lock == lock_ids[2]) {
+		if (kind == 3) t->wrheld = 1;
+		else if (kind == 4) t->wrheld = 0;
+	}
 	snprintf(b, sizeof b, "%c%d", "LUrwu"[kind], lock_id(lock));
 	emit(t, b);
 }
@@ -108,6 +123,7 @@ void verif_lock_event(int kind, const void *lock)
 static int cache_id(struct cache *c)
 {
 	int i;
+	if (g_shared && g_shared->cache == c) return 1;
 	for (i = 1; i <= 3; ++i)
 		if (caches[i] == c) return i;
 	return 0;
@@ -119,6 +135,9 @@ void verif_cache_event(int fn, struct cache *cache, struct cache_entry *entry)
 	char b[64];
 	int i, haslock = 0, c;
 	if (!t || !recording) return;
+	/* inside a write section of shared->lock the thread is alone (C05_writers_exclusive):
+	 * cache accesses of open / attribute hooks there need no cache_lock and are not traced */
+	if (t->wrheld) return;
 	c = cache_id(cache);
 	for (i = 0; i < t->nheld; ++i)
 		if (t->held[i] == lock_ids[1]) haslock = 1;
@@ -146,6 +165,17 @@ void verif_cache_event(int fn, struct cache *cache, struct cache_entry *entry)
 	emit(t, b);
 }
 
+/* bracket a public API call in the calling thread's trace */
+static void api_mark(char c, int id)
+{
+	char b[16];
+	if (!me || !recording) return;
+	snprintf(b, sizeof b, "%c%d", c, id);
+	emit(me, b);
+}
+#define API(id, call) (api_mark('A', (id)), (call), api_mark('Z', (id)))
+#define APIV(id, var, call) do { api_mark('A', (id)); (var) = (call); api_mark('Z', (id)); } while (0)
+
 /* ------------------------------------------------------------------------ */
 
 struct job {
@@ -155,7 +185,8 @@ struct job {
 	unsigned npages;
 	unsigned char *ref;		/* npages * 4096 reference bytes */
 	int *refst;			/* reference status per page */
-	unsigned long ok, busy, bad, err;
+	unsigned long ok, busy, bad, err, writes;
+	unsigned cap0;
 	char firstbad[96];
 	pthread_barrier_t *bar;
 	/* stress */
@@ -179,25 +210,102 @@ static void *reader(void *arg)
 		unsigned kind = lcg(&s) % 8;
 		size_t len = 4096, off = 0, got;
 		kdump_status st;
+		if ((j->flags & 8) && kind == 4 && (lcg(&s) % 3) == 0) {
+			/* attribute writes with side effects, through the three write entry points */
+			unsigned w = lcg(&s) % 6;
+			kdump_attr_t a;
+			kdump_attr_ref_t ref;
+			kdump_status ws;
+			a.type = KDUMP_NUMBER;
+			switch (w) {
+			case 0:
+				a.val.number = j->cap0 + (lcg(&s) % 3);
+				APIV(20, ws, kdump_set_attr(j->ctx, "cache.size", &a));
+				break;
+			case 1:
+				APIV(4, ws, kdump_attr_ref(j->ctx, "cache", &ref));
+				if (ws == KDUMP_OK) {
+					a.val.number = j->cap0 + (lcg(&s) % 3);
+					APIV(21, ws, kdump_set_sub_attr(j->ctx, &ref, "size", &a));
+					kdump_attr_unref(j->ctx, &ref);
+				}
+				break;
+			case 2:
+				APIV(4, ws, kdump_attr_ref(j->ctx, "cache.size", &ref));
+				if (ws == KDUMP_OK) {
+					a.val.number = j->cap0 + (lcg(&s) % 3);
+					APIV(22, ws, kdump_attr_ref_set(j->ctx, &ref, &a));
+					kdump_attr_unref(j->ctx, &ref);
+				}
+				break;
+			case 3:
+				a.val.number = lcg(&s) % 3;	/* NEVER, ALWAYS, TRY */
+				if (a.val.number == 1) a.val.number = 2;
+				APIV(20, ws, kdump_set_attr(j->ctx, KDUMP_ATTR_FILE_MMAP_POLICY, &a));
+				break;
+			case 4:
+				a.val.number = 4096;
+				APIV(20, ws, kdump_set_attr(j->ctx, KDUMP_ATTR_PAGE_SIZE, &a));
+				break;
+			default:
+				APIV(5, ws, kdump_attr_ref(j->ctx, "file", &ref));
+				if (ws == KDUMP_OK) {
+					a.val.number = 0;
+					APIV(21, ws, kdump_set_sub_attr(j->ctx, &ref, "zero_excluded", &a));
+					kdump_attr_unref(j->ctx, &ref);
+				}
+			}
+			(void)ws;
+			++j->writes;
+			continue;
+		}
 		if ((j->flags & 2) && kind == 7) {
 			kdump_attr_t a;
-			kdump_num_t n;
+			kdump_status qs;
 			a.type = KDUMP_BITMAP;
-			if (kdump_get_typed_attr(j->ctx, lcg(&s) & 1 ? KDUMP_ATTR_MEMORY_PAGEMAP
-						 : KDUMP_ATTR_FILE_PAGEMAP, &a) == KDUMP_OK) {
+			APIV(3, qs, kdump_get_typed_attr(j->ctx, lcg(&s) & 1 ? KDUMP_ATTR_MEMORY_PAGEMAP
+							 : KDUMP_ATTR_FILE_PAGEMAP, &a));
+			if (qs == KDUMP_OK) {
 				kdump_addr_t idx = pg;
 				unsigned char bits[8];
-				kdump_bmp_find_set(a.val.bitmap, &idx);
-				kdump_bmp_get_bits(a.val.bitmap, pg, pg + 63, bits);
+				API(11, kdump_bmp_find_set(a.val.bitmap, &idx));
+				API(10, kdump_bmp_get_bits(a.val.bitmap, pg, pg + 63, bits));
+				idx = pg;
+				API(12, kdump_bmp_find_clear(a.val.bitmap, &idx));
 			}
-			kdump_get_number_attr(j->ctx, "max_pfn", &n);
+			a.type = KDUMP_NUMBER;
+			API(3, kdump_get_typed_attr(j->ctx, "max_pfn", &a));
+			API(2, kdump_get_attr(j->ctx, "arch.name", &a));
+			{
+				kdump_attr_ref_t ref, sub;
+				kdump_attr_iter_t it;
+				char *raw = NULL;
+				APIV(4, qs, kdump_attr_ref(j->ctx, "linux.uts", &ref));
+				if (qs == KDUMP_OK) {
+					APIV(5, qs, kdump_sub_attr_ref(j->ctx, &ref, "release", &sub));
+					if (qs == KDUMP_OK) {
+						API(6, kdump_attr_ref_get(j->ctx, &sub, &a));
+						kdump_attr_unref(j->ctx, &sub);
+					}
+					APIV(8, qs, kdump_attr_ref_iter_start(j->ctx, &ref, &it));
+					if (qs == KDUMP_OK) {
+						if (it.key) API(9, kdump_attr_iter_next(j->ctx, &it));
+						kdump_attr_iter_end(j->ctx, &it);
+					}
+					kdump_attr_unref(j->ctx, &ref);
+				}
+				APIV(7, qs, kdump_attr_iter_start(j->ctx, "arch", &it));
+				if (qs == KDUMP_OK) kdump_attr_iter_end(j->ctx, &it);
+				APIV(13, qs, kdump_vmcoreinfo_raw(j->ctx, &raw));
+				if (qs == KDUMP_OK) free(raw);
+			}
 			continue;
 		}
 		if (kind == 5) { off = 4096 - 32; len = 64; }		/* crosses into the next page */
 		if (kind == 6) { off = lcg(&s) % 4000; len = 8; }
 		if (pg + 1 >= j->npages && kind == 5) { off = 0; len = 64; }
 		got = len;
-		st = kdump_read(j->ctx, KDUMP_MACHPHYSADDR, (kdump_addr_t)pg * 4096 + off, buf, &got);
+		APIV(0, st, kdump_read(j->ctx, KDUMP_MACHPHYSADDR, (kdump_addr_t)pg * 4096 + off, buf, &got));
 		if (st == KDUMP_ERR_BUSY) { ++j->busy; continue; }
 		/* expected: bytes up to the first page that failed in the reference run */
 		{
@@ -289,8 +397,28 @@ static void run_readers(char **f, int nf)
 	kdump_free(fresh);
 	close(fd2);
 
-	base = open_file(f[1], &fd);
-	if (!base) { printf("OPENFAIL\n"); return; }
+	/* the base context; with flag 16 the main thread's API calls are recorded as well */
+	memset(&main_ts, 0, sizeof main_ts);
+	main_ts.id = nthreads;
+	main_ts.cap = 1 << 16;
+	main_ts.ev = malloc(main_ts.cap);
+	base = kdump_new();
+	fd = open(f[1], O_RDONLY);
+	if (!base || fd < 0) { printf("OPENFAIL\n"); return; }
+	g_shared = base->shared;
+	lock_ids[1] = &base->shared->cache_lock;
+	lock_ids[2] = &base->shared->lock;
+	nlock_ids = 3;
+	caches[1] = caches[2] = caches[3] = NULL;
+	if (flags & 16) { me = &main_ts; recording = 1; }
+	{
+		kdump_status os;
+		const char *name = f[1];
+		APIV(26, os, kdump_set_filenames(base, 1, &name));	/* names are informational */
+		APIV(25, os, kdump_open_fd(base, fd));
+		if (os != KDUMP_OK) { recording = 0; me = NULL; printf("OPENFAIL\n"); kdump_free(base); return; }
+	}
+	recording = 0;
 	kdump_set_number_attr(base, "cache.size", cap);
 	if (flags & 1) {
 		kdump_attr_t a;
@@ -303,10 +431,6 @@ static void run_readers(char **f, int nf)
 			kdump_bmp_find_set(a.val.bitmap, &idx);
 		kdump_get_number_attr(base, "max_pfn", &n);
 	}
-	lock_ids[1] = &base->shared->cache_lock;
-	lock_ids[2] = &base->shared->lock;
-	nlock_ids = 3;
-	caches[1] = base->shared->cache;
 	caches[2] = base->shared->fcache->cache;
 	caches[3] = base->shared->fcache->fbcache;
 
@@ -314,14 +438,18 @@ static void run_readers(char **f, int nf)
 	for (i = 0; i < nthreads; ++i) {
 		struct job *j = &jobs[i];
 		memset(j, 0, sizeof *j);
-		clones[i] = kdump_clone(base, (flags & 4) ? KDUMP_CLONE_XLAT : 0);
+		if (flags & 16) recording = 1;
+		APIV(23, clones[i], kdump_clone(base, (flags & 4) ? KDUMP_CLONE_XLAT : 0));
+		recording = 0;
 		j->ctx = clones[i];
+		j->cap0 = cap;
 		j->ts.id = i;
 		j->ts.cap = EVBUF;
 		j->ts.ev = malloc(EVBUF);
 		j->nreads = nreads; j->seed = seed; j->flags = flags;
 		j->npages = npages; j->ref = ref; j->refst = refst; j->bar = &bar;
 	}
+	me = NULL;
 	recording = 1;
 	for (i = 0; i < nthreads; ++i)
 		pthread_create(&th[i], NULL, reader, &jobs[i]);
@@ -329,32 +457,42 @@ static void run_readers(char **f, int nf)
 		pthread_join(th[i], NULL);
 	recording = 0;
 
-	printf("N=%d cap=%d", nthreads, cap);
-	for (i = 0; i < nthreads; ++i) {
-		struct job *j = &jobs[i];
-		j->ts.ev[j->ts.len] = 0;
-		printf(" | %s", j->ts.len ? j->ts.ev : "-");
-		if (j->ts.len + 64 > j->ts.cap) printf("TRUNCATED");
-		ok += j->ok; busy += j->busy; bad += j->bad; err += j->err;
-		if (j->ts.nolock && !nolock) first = j->ts.first_nolock;
-		joined += j->ts.joined;
-		if (j->bad && !firstbad[0]) snprintf(firstbad, sizeof firstbad, "%s", j->firstbad);
-		nolock += j->ts.nolock;
+	{
+		unsigned long rs1 = verif_cache_refsum(base->shared->cache),
+			rs2 = verif_cache_refsum(base->shared->fcache->cache),
+			rs3 = verif_cache_refsum(base->shared->fcache->fbcache), writes = 0;
+		/* free everything (recorded with flag 16) before printing */
+		if (flags & 16) { me = &main_ts; recording = 1; }
+		for (i = 0; i < nthreads; ++i)
+			API(24, kdump_free(clones[i]));
+		API(24, kdump_free(base));
+		recording = 0;
+		me = NULL;
+		g_shared = NULL;
+		close(fd);
+
+		printf("N=%d cap=%d", nthreads, cap);
+		for (i = 0; i < nthreads; ++i) {
+			struct job *j = &jobs[i];
+			j->ts.ev[j->ts.len] = 0;
+			printf(" | %s", j->ts.len ? j->ts.ev : "-");
+			if (j->ts.len + 64 > j->ts.cap) printf("TRUNCATED");
+			ok += j->ok; busy += j->busy; bad += j->bad; err += j->err; writes += j->writes;
+			if (j->ts.nolock && !nolock) first = j->ts.first_nolock;
+			joined += j->ts.joined;
+			if (j->bad && !firstbad[0]) snprintf(firstbad, sizeof firstbad, "%s", j->firstbad);
+			nolock += j->ts.nolock;
+			free(j->ts.ev);
+		}
+		main_ts.ev[main_ts.len] = 0;
+		printf(" | %s", main_ts.len ? main_ts.ev : "-");
+		free(main_ts.ev);
+		/* a read may only be refused when the cache is smaller than the number of threads */
+		if (busy && cap >= nthreads) badbusy = busy;
+		printf(" | ok=%lu busy=%lu bad=%lu%s%s err=%lu refsum=%lu,%lu,%lu nolock=%lu%s%s badbusy=%lu joined=%lu writes=%lu\n",
+		       ok, busy, bad, bad ? ":" : "", firstbad, err, rs1, rs2, rs3,
+		       nolock, nolock ? ":" : "", first, badbusy, joined, writes);
 	}
-	/* a read may only be refused when the cache is smaller than the number of threads */
-	if (busy && cap >= nthreads) badbusy = busy;
-	printf(" | ok=%lu busy=%lu bad=%lu%s%s err=%lu refsum=%lu,%lu,%lu nolock=%lu%s%s badbusy=%lu joined=%lu\n",
-	       ok, busy, bad, bad ? ":" : "", firstbad, err,
-	       verif_cache_refsum(base->shared->cache),
-	       verif_cache_refsum(base->shared->fcache->cache),
-	       verif_cache_refsum(base->shared->fcache->fbcache),
-	       nolock, nolock ? ":" : "", first, badbusy, joined);
-	for (i = 0; i < nthreads; ++i) {
-		kdump_free(clones[i]);
-		free(jobs[i].ts.ev);
-	}
-	kdump_free(base);
-	close(fd);
 	free(ref); free(refst);
 	pthread_barrier_destroy(&bar);
 }
